@@ -4,6 +4,7 @@ import (
 	"context"
 	"errors"
 	"fmt"
+	"github.com/prometheus/client_golang/prometheus"
 	"math"
 	"math/rand"
 	"runtime"
@@ -448,6 +449,8 @@ func c18Streams(cfg evd.Config, col *evd.Collector, r *rand.Rand) int64 {
 // operation are being cleaned away. Every exhaustion starts an asynchronous
 // clean-up; an injection acknowledged at any moment of it must still be there
 // afterwards - listed with its full count and firing exactly that often.
+var c18Scrapes int64
+
 func c18AddDuringPrune(cfg evd.Config, col *evd.Collector, r *rand.Rand) int64 {
 	trials := cfg.N(3000, 300000)
 	var added int64
@@ -488,8 +491,41 @@ func c18AddDuringPrune(cfg evd.Config, col *evd.Collector, r *rand.Rand) int64 {
 				runtime.Gosched()
 			}
 		}()
+		// in half of the trials the metrics endpoint is scraped all the while (the
+		// collector walks the same lists, with a consumer that takes its time)
+		var scr sync.WaitGroup
+		stop := make(chan struct{})
+		var mch chan prometheus.Metric
+		if tr%2 == 0 {
+			mch = make(chan prometheus.Metric)
+			coll := faults.NewActiveFaultsCollector(set)
+			go func() {
+				for range mch {
+					runtime.Gosched()
+				}
+			}()
+			scr.Add(1)
+			go func() {
+				defer scr.Done()
+				start.Wait()
+				for {
+					select {
+					case <-stop:
+						return
+					default:
+					}
+					coll.Collect(mch)
+					atomic.AddInt64(&c18Scrapes, 1)
+				}
+			}()
+		}
 		start.Done()
 		done.Wait()
+		close(stop)
+		scr.Wait()
+		if mch != nil {
+			close(mch)
+		}
 		added += int64(late)
 		ok := func(cur map[string][]faults.Description) bool { return len(cur["op"]) == late }
 		cur := settledCurrent(set, ok)
@@ -516,5 +552,6 @@ func c18AddDuringPrune(cfg evd.Config, col *evd.Collector, r *rand.Rand) int64 {
 		}
 		col.Case(evd.FP("add-during-prune", m, late, lateCount), true)
 	}
+	col.Add("ev_metrics_scrapes_racing_injections_and_pruning", atomic.LoadInt64(&c18Scrapes))
 	return added
 }
